@@ -19,6 +19,7 @@ inductive PyExc where
   | IndexError
   | SubstitutionSyntaxError
   | SubstitutionReplacementError (source : Str) (name : Option Str)
+  | ConfigurationSyntaxError (url : Option Str) (lineno colno : Option Int) (specifier : Option Str)   -- message dropped
   | Other (cls : Str)      -- any other class, by name (never raised by translated code; target of the models' `other`)
 deriving Repr, DecidableEq
 
@@ -47,6 +48,20 @@ def find1 (s : Str) (c : Char) : Int :=
 /-- `s.rsplit(c, 1)` for a one-character literal `c` -/
 def rsplit1 (s : Str) (c : Char) : List Str :=
   if s.contains c then [(ZCV.rsplit1 s c).1, (ZCV.rsplit1 s c).2] else [s]
+
+/-- `s.split(c, 1)` for a one-character literal `c` -/
+def split1 (s : Str) (c : Char) : List Str :=
+  if s.contains c then [s.takeWhile (· != c), (s.dropWhile (· != c)).drop 1] else [s]
+
+/-- `s.split(c)` for a one-character literal `c` -/
+def splitOn (s : Str) (c : Char) : List Str :=
+  match s with
+  | [] => [[]]
+  | x :: t =>
+    if x == c then [] :: splitOn t c
+    else match splitOn t c with
+      | w :: ws => (x :: w) :: ws
+      | [] => [[x]]
 
 /-- `s.startswith(p, pos)` : indices adjusted as for slices (no upper clamp of `pos`), then a prefix test -/
 def startsWithAt (s p : Str) (pos : Int) : Bool :=
